@@ -105,7 +105,9 @@ def run_property(prop, tier, seed, workers=None, replay=None, keep_logs=False, q
     env = child_env(overlay_dir, extra_env)
 
     nworkers = workers or getattr(mod, "WORKERS", {}).get(tier, 8)
-    budget = getattr(mod, "BUDGET", {}).get(tier, 60 if tier == "quick" else 900)
+    # BUDGET is only a cap on a worker's wall-clock (the case streams are finite); it is scaled generously because the
+    # machine may be shared with other checks, and a truncated run can fall below its floors (= inconclusive)
+    budget = getattr(mod, "BUDGET", {}).get(tier, 60 if tier == "quick" else 900) * float(os.environ.get("VERIF_BUDGET_SCALE", "3"))
     wd = max(120.0, budget * 4)
     logdir = tempfile.mkdtemp(prefix=f"verif-{prop}-", dir=os.environ.get("VERIF_TMP", "/var/tmp"))
     procs = []
